@@ -241,6 +241,10 @@ def run_native(harness, cfg, model, choices):
         harness(cfg)
     except PathAbort:
         pass
+    except Exception as ex:
+        # the harness went on after a recorded violation and then tripped over the broken state: what was recorded counts
+        if not c.violations:
+            raise
     finally:
         set_ctx(None)
     return c.violations
